@@ -53,6 +53,7 @@ def canon (pc : Bool) : Nat → Expr → Bool
   | k, .inArr e _ => decide (k ≤ 5) && canon pc 5 e
   | k, .index _ i => decide (k ≤ 15) && canon false 1 i
   | k, .field e => decide (k ≤ 14) && canon false 14 e
+  | k, .namedField e => decide (k ≤ 14) && canon false 14 e   -- `@` then `p.primary()`
   | k, .incr true _ l => decide (k ≤ 13) && l.isLValue && canon false 14 l
   -- operand of a post-increment: `x`, `a[i]`, or `$e` with `e` closed (`$$x++` is `$($x++)`)
   | k, .incr false _ (.var _) => decide (k ≤ 13)
@@ -76,6 +77,7 @@ def depth : Expr → Nat
   | .inArr e _ => depth e + 1
   | .incr _ _ e => depth e + 1
   | .field e => depth e + 1
+  | .namedField e => depth e + 1
   | .index _ i => depth i + 1
   | .getline c t f => max (depth c) (max (depth t) (if f = .none then 0 else depth f + 1))   -- only `< file` is a backward edge
   | _ => 0
